@@ -260,6 +260,7 @@ macro_rules! file_part {
 file_part!(Generated, "generated-files");
 file_part!(Truncations, "all-truncation-points");
 file_part!(HostileCounts, "hostile-count-fields");
+file_part!(LargeFiles, "collection-sizes-around-integer-widths");
 file_part!(RandomBytes, "random-bytes");
 file_part!(Shipped, "shipped-files");
 
@@ -345,7 +346,7 @@ fn file_strategy() -> impl Strategy<Value = FileCase> {
 }
 
 pub fn parts() -> Vec<Box<dyn DynPart>> {
-    vec![Box::new(Generated), Box::new(Truncations), Box::new(HostileCounts), Box::new(RandomBytes), Box::new(Shipped), Box::new(OnDisk)]
+    vec![Box::new(Generated), Box::new(Truncations), Box::new(HostileCounts), Box::new(LargeFiles), Box::new(RandomBytes), Box::new(Shipped), Box::new(OnDisk)]
 }
 
 pub fn run(run: &mut Run) {
@@ -354,7 +355,7 @@ pub fn run(run: &mut Run) {
         file: it must parse, re-serialise byte-identically (canonical) and re-parse to the same structure; EVERY truncation point of the \
         file must be rejected when it lies inside the declared content; every count field is overwritten with -1, i32::MIN, 2^31-1, \
         count+1 (must not panic, must stay within the allocation bound of 64 KiB + 64 x input, count+1 must be rejected); random byte \
-        strings with and without the magic; the two shipped files whole and cut at every point of their first 4 KB; from_file / \
+        strings with and without the magic; files whose collections have 255..257, 32 767..32 768 and 65 535..70 000 elements (and files declaring more than they hold); the two shipped files whole and cut at every point of their first 4 KB; from_file / \
         from_pathbuf on a temporary file must agree with the in-memory reader. Non-trivial = the file holds a non-empty collection, a \
         hostile count, or is a truncation inside the body."
         .into();
@@ -411,6 +412,35 @@ pub fn run(run: &mut Run) {
     let n = cuts.len() as u64;
     run.enumerate(&Truncations, n, false, |i| Some(cuts[i as usize].clone()));
     run.list(&Shipped, "shipped-files", shipped.clone());
+    // collections whose size sits at the edge of an integer width a reader might narrow the count to (8, 15, 16 bits)
+    let mut large = vec![];
+    let node = |i: u32| [i, i ^ 0x55, 3, 0x3f80_0000, 0, 0x7fc0_0000, i.wrapping_mul(7), 5, 6, 7];
+    for n in [255usize, 256, 257, 32_767, 32_768, 65_535, 65_536, 65_537, 70_000] {
+        let f = PthFile { version: 0, revision: 0, finish: 1, nodes: (0..n as u32).map(node).collect() };
+        large.push(FileCase { fmt: Format::Pth, bytes: write_pth(&f), canonical: true, cut_inside: false, label: format!("large: pth with {n} nodes") });
+    }
+    for (have, declared) in [(65_535usize, 65_536i32), (65_535, 70_000), (65_536, 65_537), (255, 256), (256, 65_792)] {
+        let f = PthFile { version: 0, revision: 0, finish: 1, nodes: (0..have as u32).map(node).collect() };
+        let mut bytes = write_pth(&f);
+        bytes[8..12].copy_from_slice(&declared.to_le_bytes());
+        large.push(FileCase { fmt: Format::Pth, bytes, canonical: false, cut_inside: true, label: format!("large: pth declaring {declared} nodes, holding {have}") });
+    }
+    let smx = |objects: Vec<SmxObject>, checkpoints: usize| SmxFile { head: [0, 6, 0, 3, 1, 1], track: "Blackwood".into(), ground: [1, 2, 3], objects, checkpoints: (0..checkpoints as i32).collect() };
+    let obj = |p: usize, t: usize| SmxObject { header: [1, 2, 3, 4], points: (0..p as u32).map(|i| [i, 2, 3, 4]).collect(), tris: (0..t).map(|i| [i as u16, 1, 2]).collect() };
+    for n in [255usize, 256, 257, 65_535, 65_536, 65_537] {
+        for (what, f) in [
+            ("points", smx(vec![obj(n, 1), obj(1, 1)], 2)),
+            ("triangles", smx(vec![obj(1, n), obj(1, 1)], 2)),
+            ("checkpoints", smx(vec![obj(1, 1)], n)),
+        ] {
+            large.push(FileCase { fmt: Format::Smx, bytes: write_smx(&f), canonical: true, cut_inside: false, label: format!("large: smx with {n} {what}") });
+        }
+    }
+    for n in [255usize, 256, 257] {
+        let f = smx((0..n).map(|i| obj(i % 3, i % 2)).collect(), 1);
+        large.push(FileCase { fmt: Format::Smx, bytes: write_smx(&f), canonical: true, cut_inside: false, label: format!("large: smx with {n} objects") });
+    }
+    run.list(&LargeFiles, "collection-sizes-around-integer-widths", large);
     // hostile counts
     let hostile = (file_strategy(), any::<prop::sample::Index>(), 0usize..6).prop_filter_map("canonical", |(f, ix, which)| {
         if !f.canonical {
